@@ -61,16 +61,19 @@ PLANS['C03'] = Plan(
 PLANS['C16'] = Plan(
     'C16', ['src/correlation/vectorise.py::vectorisePositions', 'src/correlation/optical_map.py::toRelativeGenomicPositions',
             'src/correlation/peaks_selector.py::PeaksSelector.selectPeaks',
-            'src/correlation/sequence_generator.py::SequenceGenerator.positionsToSequence'], 'other',
+            'src/correlation/sequence_generator.py::SequenceGenerator.positionsToSequence', 'src/correlation/vectorise.py::blur'], 'other',
     "Proved for all inputs (deductive): vectorisePositions (bit k set iff a label lies in [start+k*res, start+(k+1)*res), every label between start "
     "and end covered; ghost bin boundaries and witness array), toRelativeGenomicPositions (bin centre, within resolution/2 of every coordinate of the bin; "
     "element-wise numpy broadcasting assumed), PeaksSelector.selectPeaks (the count highest-scoring peaks in descending order; sorted() assumed stable "
-    "ordered permutation). BOUNDED, not proved: blur (zip_longest/any/numpy) and CorrelationResult.createPeaks (numpy argpartition) are checked "
-    "exhaustively on small cases through the real functions; SequenceGenerator.positionsToSequence (their composition, bins counted from `start`) is proved against the proved contract of vectorisePositions and the ASSUMED contract of blur.",
+    "ordered permutation), blur (a result bit is 1 exactly when a non-zero original entry lies within the radius, length kept, ValueError exactly for a negative "
+    "radius: invariant over the list of shifted copies, then the zip_longest table column by column; zip_longest / any / numpy.array as assumed library "
+    "contracts), SequenceGenerator.positionsToSequence (their composition, bins counted from `start`, proved against the two proved contracts). BOUNDED, not "
+    "proved: CorrelationResult.createPeaks (numpy argpartition) is checked exhaustively on small cases through the real function; blur and the composition are "
+    "cross-checked the same way.",
     bounded=_lazy('bcheck.c16', 'bounded'), replay=_lazy('bcheck.c16', 'replay'),
-    technique='deductive (own VC generator + z3) for vectorise / bin-to-bp / seed selection; bounded exhaustive monitors for blur and createPeaks',
+    technique='deductive (own VC generator + z3) for vectorise / blur / their composition / bin-to-bp / seed selection; bounded exhaustive monitor for createPeaks (and cross-checks)',
     assumptions=['numpy array arithmetic is element-wise (toRelativeGenomicPositions proved for one coordinate)',
-                 'blur and createPeaks: bounded only'],
+                 'createPeaks (numpy argpartition): bounded only', 'itertools.zip_longest, any, numpy.array: assumed library contracts'],
 )
 
 AE = 'src/alignment/aligner.py::AlignerEngine.'
